@@ -77,6 +77,8 @@ def _apply_setup(setup):
     stubs.TREE_LEAVES[0] = setup.get('tree_leaves', 2)
     stubs.PAR_MODE['other'] = setup.get('par_other', 'seq')
     stubs.PAR_MODE['sharedmem'] = setup.get('par_sharedmem', 'seq')
+    from . import npx as _npx
+    _npx.COSINE_SYM[0] = bool(setup.get('cosine_sym'))
     return setup
 
 
